@@ -115,7 +115,9 @@ def _fill_level():
         ('C08_confluence (FULL statement, theorem; no NoCalc, no Acyclic hypothesis), C08_status_is_den_dyn, '
          'C08_confluence_status_dyn, C08_complete_reports_closure_dyn, C08_complete_exit_dyn, C08_pair_monitor_holds: over '
          'ANY task graph - task_dep, setup edges and dynamic calc_dep edges (a calc task delivers task_dep / file_dep '
-         'owners / further calc_dep when it is executed or up-to-date; the oracle calcRes is a function of the task) - '
+         'owners / further calc_dep when it is executed or up-to-date [calcRes], and - as doit does - also when it FAILED '
+         'during its execution [calcResFail: the values of its earlier actions; Dyn.delivOf / startedFail, '
+         'C08_failed_started_iff; no NoFailDeliver hypothesis]; the oracles are functions of the task) - '
          'in every reachable state of the serial, thread and process transition systems of the run model (every '
          'schedule, every numProcess, every set-iteration order, every arrival order of calc results) every finished '
          'run_status and every terminal report (success / up-to-date / ignored / failure kind) equals the denotation '
@@ -1038,18 +1040,14 @@ def eval_group(case, variants, st, shrink_s=8.0, accept=True, den=True):
             st.divergence({'case': _strip(c), 'trace': o['trace'], 'exit': o['exit'], 'err': o['err'],
                            'matched': a.get('matched'), 'expected': a.get('expected')},
                           'K1: run (%s) is not a trace of the M1 model' % c['runner'])
-    # hypothesis NoFailDeliver of the denotation theorems (decidable on the case): no calc task that fails during its
-    # execution delivers values.  Where it does not hold, K2 / K2c are NOT applied (the denotation evaluated by the driver
-    # does not know these deliveries yet); K1 (the M1 model has them) and P still are.
-    nfd = True
+    # deliveries of calc tasks that FAILED during execution (runlib 'calc_first' tasks; model: calcResFail / deliverF):
+    # since the NoFailDeliver hypothesis was lifted (Dyn.delivOf / startedFail) the dynamic denotation evaluated by the
+    # driver covers them, so K2c applies; counted to show that the clause is exercised on real runs
     if fam == 'A':
         m0 = base.get('model') or {}
-        nfd = not any(m0.get('calcResFail') or [])
-        st.count('hyp_nofaildeliver:%s' % nfd)
-    if not nfd:
-        st.count('K2_K2c_not_applied_fail_delivery', len(runs))
+        st.count('fail_delivery_case:%s' % any(m0.get('calcResFail') or []))
     # K2: denotation (hypotheses: no calc_dep, acyclic = determined)
-    if ans is not None and fam == 'A' and nfd:
+    if ans is not None and fam == 'A':
         hyp = ans.get('nocalc') and ans.get('determined')
         st.count('hyp_nocalc_acyclic:%s' % bool(hyp))
         if hyp:
@@ -1062,7 +1060,7 @@ def eval_group(case, variants, st, shrink_s=8.0, accept=True, den=True):
                                    'reports': s['reports'], 'exit': o['exit'], 'complete': s['complete']},
                                   'K2: reports / closure / exit code of the %s run differ from the denotation' % c['runner'])
     # K2c: denotation with dynamic calc_dep edges (hypothesis: determined_c, decidable; C08_monitors_hold_dyn)
-    if ans is not None and fam == 'A' and 'determined_c' in ans and nfd:
+    if ans is not None and fam == 'A' and 'determined_c' in ans:
         kind = 'nocalc' if ans.get('nocalc') else 'calc'
         st.count('hyp_dyn_determined:%s:%s' % (kind, bool(ans.get('determined_c'))))
         if ans.get('determined_c'):
@@ -1070,6 +1068,8 @@ def eval_group(case, variants, st, shrink_s=8.0, accept=True, den=True):
                 if o['err'] is not None:
                     continue
                 st.count('den_c_checked:%s' % kind)
+                if any((base.get('model') or {}).get('calcResFail') or []):
+                    st.count('den_c_checked:fail_delivery')
                 if not ok:
                     st.divergence({'case': _strip(c), 'den': ans['den_c'], 'closure': ans['closure_c'],
                                    'den_exit': ans['exit_c'], 'reports': s['reports'], 'exit': o['exit'],
